@@ -59,6 +59,10 @@ fn build(scenario: &str) -> Net<Packet> {
     for i in 0..n {
         let mut cfg = base_config(Mode::Router, Type::Tun, 0, &[0]);
         cfg.claims = vec![format!("10.0.{}.0/24", i)];
+        if scenario == "two_keepalive10" && i == 1 {
+            // the dialled node announces itself every 10 s; its peer keeps the default (every 90 s)
+            cfg.keepalive = Some(10);
+        }
         if scenario == "three_mixed_plain" {
             // nodes 0 and 1 allow unencrypted operation (and a cipher), node 2 does not: 0-1 runs plain, 0-2 and 1-2 sealed
             if i < 2 {
@@ -71,7 +75,7 @@ fn build(scenario: &str) -> Net<Packet> {
     }
     let a = net.addrs.clone();
     match scenario {
-        "two_single" | "two_single_plain" => net.connect(0, a[1]),
+        "two_single" | "two_single_plain" | "two_keepalive10" => net.connect(0, a[1]),
         "two_dual" => {
             net.connect(0, a[1]);
             net.connect(1, a[0]);
@@ -484,7 +488,7 @@ pub fn run_case(c: &Case) -> CaseResult {
 
 pub fn cases(tier: Tier) -> Vec<Case> {
     let mut v = vec![];
-    let scenarios: &[&str] = tier.pick(&["two_single", "three", "three_rev", "two_single_plain", "three_mixed_plain"][..], &["two_single", "two_dual", "three", "three_rev", "two_single_plain", "three_mixed_plain"][..]);
+    let scenarios: &[&str] = tier.pick(&["two_single", "three", "three_rev", "two_single_plain", "three_mixed_plain", "two_keepalive10"][..], &["two_single", "two_dual", "three", "three_rev", "two_single_plain", "three_mixed_plain", "two_keepalive10"][..]);
     for sc in scenarios {
         let sel = select(sc);
         if std::env::var("VERIF_TRACE_SELECT").is_ok() {
@@ -508,7 +512,10 @@ pub fn cases(tier: Tier) -> Vec<Case> {
             } else {
                 vec!["verbatim", "stage", "flip_last", "trunc-1"]
             };
-            if kind != "sealed" && kind != "empty" && *sc != "three_rev" {
+            if *sc == "two_keepalive10" && (kind == "sealed" || kind == "empty") {
+                continue; // the configuration matters for what a replayed handshake datagram leaves behind
+            }
+            if kind != "sealed" && kind != "empty" && *sc != "three_rev" && *sc != "two_keepalive10" {
                 // single-field edits of the handshake datagram (key hash, every part's length and body, signature length and
                 // bytes): at two offsets in the quick tier (handshake object still there / gone), at all offsets in the thorough tier
                 for &offset in OFFSETS.iter() {
@@ -578,13 +585,165 @@ pub fn cases(tier: Tier) -> Vec<Case> {
     v
 }
 
+// ---------- learning (switch) mesh: the routes two nodes have to each other are the addresses they learned ----------
+
+use crate::payload::Frame;
+
+#[derive(Serialize, Deserialize, Clone, Debug)]
+pub struct SwCase {
+    pub k: usize,
+    pub offset: i64,
+    pub source: String,
+    pub target: String,
+}
+
+fn sw_mac(i: usize) -> [u8; 6] {
+    [2, 0, 0, 0, 9, i as u8 + 1]
+}
+
+fn sw_build() -> Net<Frame> {
+    let mut net = Net::<Frame>::new();
+    net.capture = Some(vec![]);
+    for _ in 0..3 {
+        net.add_node(&base_config(Mode::Switch, Type::Tap, 0, &[0]), false);
+    }
+    let a = net.addrs.clone();
+    net.connect(0, a[1]);
+    net.connect(0, a[2]);
+    net.deliver_all(256);
+    net
+}
+
+/// One second: tick, deliver, one frame from every node's station to every other node's station. From the third second on
+/// every station is known everywhere: a frame reaches exactly its destination node, nothing is flooded.
+fn sw_second(net: &mut Net<Frame>, check: bool) -> Result<(), Fail> {
+    net.tick();
+    net.deliver_all(256);
+    let t = net.now;
+    let mut expected: Vec<Vec<Vec<u8>>> = vec![vec![]; 3];
+    for i in 0..3 {
+        for j in 0..3 {
+            if i != j {
+                let f = eth_frame(sw_mac(j), sw_mac(i), None, format!("sw probe {}->{} at {:08}", i, j, t).as_bytes());
+                expected[j].push(f.clone());
+                let r = net.put_frame(i, f);
+                if check {
+                    r.map_err(|e| Fail::new("send_error", format!("node {} cannot send to node {} at t+{}: {}", i, j, t - START_TIME, e)))?;
+                }
+            }
+        }
+    }
+    net.deliver_all(256);
+    for j in 0..3 {
+        let mut got = net.pop_frames(j);
+        if !check || t < START_TIME + 3 {
+            continue;
+        }
+        for e in &expected[j] {
+            match got.iter().position(|g| g == e) {
+                Some(p) => {
+                    got.remove(p);
+                }
+                None => return Err(Fail::new("packet_lost", format!("a frame for node {}'s station was not delivered (t = start+{})", j, t - START_TIME))),
+            }
+        }
+        if !got.is_empty() {
+            return Err(Fail::new("route_lost", format!("node {} received {} frame(s) addressed to other stations at t = start+{}: somebody forgot where a station lives and flooded", j, got.len(), t - START_TIME)));
+        }
+    }
+    if check {
+        for i in 0..3 {
+            for j in 0..3 {
+                if i != j && !net.connected(i, j) {
+                    return Err(Fail::new("disconnected", format!("node {} lost its connection to node {} (t = start+{})", i, j, t - START_TIME)));
+                }
+            }
+        }
+    }
+    Ok(())
+}
+
+pub fn sw_select() -> Vec<(usize, String)> {
+    let mut net = sw_build();
+    for _ in 0..5 {
+        sw_second(&mut net, false).ok();
+    }
+    let cap = net.capture.take().unwrap();
+    cap.iter().enumerate().filter(|(_, w)| w.data.first() == Some(&0xff)).map(|(k, w)| (k, kind_of(&w.data))).collect()
+}
+
+pub fn run_sw_case(c: &SwCase) -> CaseResult {
+    let mut net = sw_build();
+    let mut guard = 0;
+    while net.capture.as_ref().unwrap().len() <= c.k {
+        sw_second(&mut net, true)?;
+        guard += 1;
+        if guard > 20 {
+            return Err(Fail::new("harness_capture", format!("datagram {} never appeared", c.k)));
+        }
+    }
+    let w = net.capture.as_ref().unwrap()[c.k].clone();
+    while net.now < w.sent_at + c.offset {
+        sw_second(&mut net, true)?;
+    }
+    if !net.fully_meshed() {
+        return Ok(0);
+    }
+    let to = if c.target == "sender" { net.node_index(&w.from) } else { net.node_index(&w.to) };
+    let to = match to {
+        Some(t) => t,
+        None => return Ok(0),
+    };
+    let from = match c.source.as_str() {
+        "original" => {
+            if c.target == "sender" {
+                w.to
+            } else {
+                w.from
+            }
+        }
+        "other_peer" => match (0..3).find(|i| net.addrs[*i] != w.from && net.addrs[*i] != w.to) {
+            Some(i) => net.addrs[i],
+            None => return Ok(0),
+        },
+        _ => addr_of(999),
+    };
+    let kind = kind_of(&w.data);
+    let tag = |f: Fail| f.with("datagram", kind.clone()).with("source", c.source.clone()).with("offset", c.offset).with("target", c.target.clone()).with("mode", "switch");
+    util::catch(|| net.inject(to, from, w.data.clone())).map_err(|p| tag(Fail::from_panic(&p)))?;
+    net.deliver_all(512);
+    for j in 0..3 {
+        if !net.pop_frames(j).is_empty() {
+            return Err(tag(Fail::new("forged_delivery", "a replayed handshake datagram caused an interface write")));
+        }
+    }
+    for _ in 0..130 {
+        sw_second(&mut net, true).map_err(tag)?;
+    }
+    Ok(1)
+}
+
 pub fn run(ctx: &Ctx) {
+    let mut sw = vec![];
+    for (k, _kind) in sw_select() {
+        for offset in ctx.tier.pick(vec![2i64, 61, 121], vec![0, 2, 30, 61, 121, 300]) {
+            for source in ["original", "other_peer", "unknown"] {
+                for target in ["dest", "sender"] {
+                    sw.push(SwCase { k, offset, source: source.to_string(), target: target.to_string() });
+                }
+            }
+        }
+    }
+    sweep_list(ctx, "switch_reinjection", &sw, SweepOpts { chunk: 1, trivial_classes: vec![0], ..Default::default() }, run_sw_case);
     let list = cases(ctx.tier);
     sweep_list(ctx, "reinjection", &list, SweepOpts { chunk: 1, trivial_classes: vec![0, 1, 3], ..Default::default() }, run_case);
     ctx.assume("the k-th wire datagram has the same role in every execution of a scenario (scheduling is deterministic; only key material differs), so 'datagram k' can be re-captured in each fresh execution");
     ctx.assume("key-id edits with bits 2..7 are covered by C02 (the key-id byte is not authenticated); here key-id edits select another slot");
 }
 
-pub fn replay(_family: &str, case: &Value) -> Option<CaseResult> {
+pub fn replay(family: &str, case: &Value) -> Option<CaseResult> {
+    if family == "switch_reinjection" {
+        return replay_with::<SwCase>(case, run_sw_case);
+    }
     replay_with::<Case>(case, run_case)
 }
